@@ -201,8 +201,34 @@ def check_rules(ctx):
         if loose:
             accepts_controlled = True
         if len(names) != 1 or names[0] not in by_name:
-            ctx.undecided(R3, ci.key, f"cannot identify the single built-in gate this rule targets (names {names})", ci)
-            continue
+            # a name test by membership in a collection of names: resolve the collection (module-level tuple / literal) and see
+            # whether it reaches beyond one built-in gate
+            coll = []
+            for n in walk_local(pred.node):
+                if isinstance(n, ast.Compare) and len(n.ops) == 1 and isinstance(n.ops[0], ast.In) and norm(n.left).endswith(".name"):
+                    c = n.comparators[0]
+                    if isinstance(c, ast.Name):
+                        for st in pred.module.tree.body:
+                            if isinstance(st, ast.Assign) and any(isinstance(t, ast.Name) and t.id == c.id for t in st.targets):
+                                c = st.value
+                    if isinstance(c, (ast.Tuple, ast.List, ast.Set)):
+                        coll = list(c.elts)
+            lits = [const_str(e) for e in coll if const_str(e) is not None]
+            others = [e for e in coll if const_str(e) is None]
+            if coll and len(lits) == 1 and lits[0] in by_name and others:
+                # one built-in name plus composed names (f"U3_{DAGGER_GATE_NAME}" ...): the rule also matches modifier wrappers
+                # of its target. Their matrices are not the target's: the dagger needs the factors negated *and* in reverse
+                # order, a power / exponential is no product of the same three rotations at all
+                prod_src = norm(prod.node)
+                order_aware = any(isinstance(n, (ast.If, ast.IfExp)) and ".name" in norm(n.test) and any(isinstance(x, ast.Call) and (dotted(x.func) or "").split(".")[-1] in ("reversed",) or (isinstance(x, ast.Subscript) and "::-1" in norm(x)) for b in ([n.body] if isinstance(n, ast.IfExp) else n.body) for x in ast.walk(b)) for n in walk_local(prod.node))
+                if order_aware:
+                    ctx.undecided(R4, ci.key + ":wrapper-names", f"the rule also matches {[short(e) for e in others]} and the production treats that case separately: not analysed", pred)
+                else:
+                    ctx.violation(R4, ci.key + ":wrapper-names", f"the predicate matches gates named {[short(e) for e in others]} besides {lits[0]}: those are modifier wrappers (e.g. the dagger) of the target, whose matrix is not the target's; the production emits the same factor order for them (at most with changed angles), but the inverse of RZ(a)RY(b)RZ(c) is RZ(-c)RY(-b)RZ(-a) -- reversed order", pred)
+                names = [lits[0]]
+            else:
+                ctx.undecided(R3, ci.key, f"cannot identify the single built-in gate this rule targets (names {names})", ci)
+                continue
         target = by_name[names[0]]
         # a plain-gate disjunct must not be satisfiable by a wrapper whose *name* merely matches
         d = Defs(prod.node)
